@@ -309,7 +309,7 @@ def leaf_lattice():
     ctors["normal"] = lambda dt: sg.normal(0.0, 1.0, 3, requires_grad=True, dtype=dt)
     viols = []; n = 0
     for cname, mk in ctors.items():
-        for dt in (None, f32, f64, i32, i64):
+        for dt in (None, f32, f64, i32, i64, np.complex64, np.complex128, np.bool_, np.uint8, np.float16):
             for mode in ("grad", "no_grad"):
                 n += 1
                 harness.reset_modes(verify=False)
@@ -337,6 +337,24 @@ def leaf_lattice():
                         probe = None
                     if mode == "grad" and probe is not None and probe.dtype.kind == "f":
                         viols.append({"kind": "float-leaf-refused", "detail": f"{cname} dtype={case['dtype']}: a floating-point tensor was refused requires_grad=True ({type(raised).__name__})", "case": case})
+    # the same through the setter: a tensor of every dtype built without the flag, then `t.requires_grad = True`
+    for dt in (f32, f64, np.float16, i32, i64, np.uint8, np.bool_, np.complex64, np.complex128):
+        n += 1
+        harness.reset_modes(verify=False)
+        case = {"history": [], "ctor": "setter", "dtype": np.dtype(dt).name, "mode": "grad"}
+        try:
+            t = sg.Tensor(np.array([1, 0, 1]).astype(dt))
+        except Exception:
+            continue
+        try:
+            t.requires_grad = True; raised = None
+        except Exception as e:
+            raised = e
+        fl = t.dtype.kind == "f"
+        if t.requires_grad and not fl:
+            viols.append({"kind": "nonfloat-requires-grad", "detail": f"requires_grad = True accepted on a {t.dtype} tensor", "case": case})
+        if fl and not t.requires_grad:
+            viols.append({"kind": "float-leaf-refused", "detail": f"requires_grad = True refused on a {t.dtype} tensor ({type(raised).__name__ if raised else 'ignored'})", "case": case})
     harness.reset_modes(verify=False)
     return viols, n
 
